@@ -146,4 +146,4 @@ impl PartialEq<&str> for HpoTermId {
 
 #[cfg(kani)]
 #[path = "/verif/kani/hpotermid.rs"]
-mod verif_kani;
+pub(crate) mod verif_kani;
